@@ -309,3 +309,75 @@ theorem sendLoop_partition {first : Nat} {log : List Entry} (hne : log ≠ []) (
             · exact hck2 b hb
 
 end PSO.NodeSend
+
+namespace PSO.NodeSend
+
+/-- **No exception, any cut-off, any disconnect.**  In the regular region (`first < next ≤ last + 1`) the send
+loop returns a value for every fuel, every wall-clock budget and every disconnect point. -/
+theorem sendLoop_ok {first : Nat} {log : List Entry} (hne : log ≠ []) (h : IdxOK first log) (c : SendCfg)
+    (snap : List (Option Bool)) :
+    ∀ (fuel p : Nat) (ss : Bool) (budget : Option Nat) (sent : Nat), 1 ≤ p → p ≤ log.length →
+      ∃ r, sendLoop c log fuel (first + p) ss false snap budget sent = .ok r := by
+  intro fuel
+  induction fuel with
+  | zero => intro p ss budget sent _ _; exact ⟨_, rfl⟩
+  | succ fuel ih =>
+    intro p ss budget sent hp1 hp2
+    have hlast := lastIdx_of hne h
+    have hlen : 1 ≤ log.length := List.length_pos_iff.mpr hne
+    unfold sendLoop
+    simp only [hlast]
+    by_cases hcond : (decide (first + p ≤ first + (log.length - 1)) || ss || false) = true
+    · simp only [hcond, if_true]
+      by_cases hlt : p < log.length
+      · have hpe : ∃ pe, log[p - 1]? = some pe := by
+          have : p - 1 < log.length := by omega
+          exact ⟨log[p - 1], by simp [List.getElem?_eq_getElem this]⟩
+        obtain ⟨pe, hpe⟩ := hpe
+        obtain ⟨hes, ⟨rest, hrest⟩, hcase⟩ := iterBatch_entries (B := c.B) hne h hp1 hlt (snap.head?.join) hpe
+        have hlen_es : 1 ≤ (takeBytes c.B 0 (log.drop p)).length := List.length_pos_iff.mpr hes
+        have hle : p + (takeBytes c.B 0 (log.drop p)).length ≤ log.length := by
+          have := congrArg List.length hrest
+          simp at this
+          omega
+        have hnx : first + p + (takeBytes c.B 0 (log.drop p)).length = first + (p + (takeBytes c.B 0 (log.drop p)).length) := by omega
+        rcases hcase with ⟨e, _, _, hiter⟩ | hiter
+        · rw [hiter]
+          simp only []
+          by_cases hb : budgetDone budget = true
+          · simp only [hb, if_true]; exact ⟨_, rfl⟩
+          · simp only [hb]
+            rw [hnx]
+            obtain ⟨r, hr⟩ := ih (p + (takeBytes c.B 0 (log.drop p)).length) false (budgetNext budget)
+              (sendBurst c.dropAfter sent (render c.B c.term c.commit (Batch.chunked (some (first + p - 1, pe.term)) e))).2
+              (by omega) hle
+            simp only [hr]; exact ⟨_, rfl⟩
+        · rw [hiter]
+          simp only []
+          by_cases hcn : (!stillConnected c.dropAfter (sent + 1)) = true
+          · simp only [hcn, if_true]; exact ⟨_, rfl⟩
+          · simp only [hcn]
+            by_cases hb : budgetDone budget = true
+            · simp only [hb, if_true]; exact ⟨_, rfl⟩
+            · simp only [hb]
+              rw [hnx]
+              obtain ⟨r, hr⟩ := ih (p + (takeBytes c.B 0 (log.drop p)).length) false (budgetNext budget) (sent + 1) (by omega) hle
+              simp only [hr]; exact ⟨_, rfl⟩
+      · have hpeq : p = log.length := by omega
+        subst hpeq
+        cases hl : log.getLast? with
+        | none => rw [List.getLast?_eq_none_iff] at hl; exact absurd hl hne
+        | some pe =>
+          rw [iterBatch_heartbeat hne h _ hl]
+          simp only []
+          by_cases hcn : (!stillConnected c.dropAfter (sent + 1)) = true
+          · simp only [hcn, if_true]; exact ⟨_, rfl⟩
+          · simp only [hcn]
+            by_cases hb : budgetDone budget = true
+            · simp only [hb, if_true]; exact ⟨_, rfl⟩
+            · simp only [hb]
+              obtain ⟨r, hr⟩ := ih log.length false (budgetNext budget) (sent + 1) hlen (Nat.le_refl _)
+              simp only [hr]; exact ⟨_, rfl⟩
+    · simp only [hcond]; exact ⟨_, rfl⟩
+
+end PSO.NodeSend
